@@ -240,10 +240,15 @@ def run(tier):
     schedules = set()
     classes = {}
     samples = []
-    for single in (False, True):
-        cfg = "single" if single else "multi"
+    for single, ip in ((False, "127.0.0.1"), (True, "127.0.0.1"), (True, "::1"), (False, "::1")):
+        cfg = ("single" if single else "multi") + ("-v6" if ":" in ip else "")
         sb = ctx.sandbox("c12")
-        with N.Server(tftpd, sb["srv"], single=single, logdir=sb["logs"]) as srv:
+        try:
+            srv_cm = N.Server(tftpd, sb["srv"], single=single, ip=ip, logdir=sb["logs"]).start()
+        except Exception as e:
+            v.note_inconclusive(f"could not start a server on {ip}: {e}")
+            continue
+        with srv_cm as srv:
             tagn = 0
             # exhaustive interleavings, K = 2 (and 3 in thorough)
             plans = [(("down", "down"), 3), (("down", "up"), 3), (("up", "up"), 3),
